@@ -6,7 +6,8 @@ from .common import Run, corpus_cases, generic_replay, parse_list
 PROP = "C17"
 MODULE = "PLS.Props.C17"
 THEOREMS = ["PLS.C17_scan_exact", "PLS.C17_never", "PLS.C17_always", "PLS.C17_module_names_never",
-            "PLS.C17_bound_earlier_never", "PLS.C17_visited_forms"]
+            "PLS.C17_bound_earlier_never", "PLS.C17_visited_forms",
+            "PLS.C17_test_parameters_never", "PLS.C17_fixture_parameters_never"]
 RULE = ("product of function shapes (no/one/many parameters, defaults, annotations, return annotation, multi-line "
         "signatures with and without trailing comma, methods, async, decorators, a following function) and body forms "
         "(26: call target/argument, attribute base, operands, subscripts, collection elements, return/assert/if/for/"
@@ -47,7 +48,9 @@ BINDINGS = ["none", "none", "none", "param", "assigned-before", "assigned-after"
             "module-level-below", "imported-below", "helper-def-below", "class-below",
             "unpack-before", "nested-unpack-before", "for-nested-before", "with-nested-before", "list-unpack-before",
             "module-level+rebound-below", "imported+rebound-below", "module-level+with-below",
-            "attr-store-before", "item-store-before"]
+            "attr-store-before", "item-store-before",
+            # a parameter with a default value (never a fixture request) is a parameter of the function all the same
+            "param-default", "param-kwonly-default"]
 SHAPES = ["noparams", "one", "many", "default", "annotated", "return-ann", "multiline", "multiline-trailing", "method",
           "async", "decorated", "one-line-body", "fixture", "spaces"]
 
@@ -80,6 +83,10 @@ def build(rng, shape, body, binding, name):
         params += ['beta: "T"' if name != "beta" else 'alpha: int']
     if binding == "param":
         params.append(name)
+    if binding == "param-default":
+        params.append(f"{name}=3")
+    if binding == "param-kwonly-default":
+        params += ["*", f"{name}=0.1"]
     for d in deco:
         L.append(ind + d)
     kw = "async def" if shape == "async" else "def"
@@ -257,10 +264,15 @@ def run(tier, seed):
     cases = core.Cases(); r.last_cases = cases
     corpus_cases(cases, PROP)
     items = []
+    # fixed combinations first (no random draw): every binding situation once with a plain use of a visible fixture name
+    fixed = [("fixture" if j % 4 == 3 else "one", BODIES[0], bnd, "alpha") for j, bnd in enumerate(sorted(set(BINDINGS)))]
     for i in range(n):
         rng = r.rng
-        shape, body, binding = rng.choice(SHAPES), rng.choice(BODIES), rng.choice(BINDINGS)
-        name = rng.choice(["alpha", "alpha", "beta", "gamma", "delta", "nofixture"])
+        if i < len(fixed):
+            shape, body, binding, name = fixed[i]
+        else:
+            shape, body, binding = rng.choice(SHAPES), rng.choice(BODIES), rng.choice(BINDINGS)
+            name = rng.choice(["alpha", "alpha", "beta", "gamma", "delta", "nofixture"])
         text, fn = build(rng, shape, body, binding, name)
         cname = "u%d" % i
         items.append((cname, text, fn, name, shape, body[0], binding))
